@@ -18,6 +18,8 @@ VARIABLES st, hist, out
 vars == <<st, hist, out>>
 
 Tds == {"own", "ownUpper", "foreign"}
+\* further spellings of the authority (CA.tla, td): crossed with the supported kinds only
+TdsMore == {"ownUser", "ownPort", "ownUpperPort", "ownEmptyPort", "ownUserPort", "ownDot", "ownBracket", "ipv6"}
 Dcs == {"own", "other"}
 Encs == {"plain", "pct", "case", "slash"}
 Aps == {"none", "default", "other"}
@@ -31,6 +33,8 @@ ShapesFull ==
        {Sh(k, td, dc, n, e, ap) : k \in {"service", "agent"}, td \in Tds, dc \in Dcs, n \in Names, e \in Encs, ap \in Aps}
   \cup {Sh("mesh-gateway", td, dc, "", e, ap) : td \in Tds, dc \in Dcs, e \in Encs, ap \in Aps}
   \cup {Sh("server", td, dc, "", e, "none") : td \in Tds, dc \in Dcs, e \in Encs}
+  \cup {Sh(k, td, "own", IF k \in {"service", "agent"} THEN "web" ELSE "", "plain", "none")
+         : k \in {"service", "agent", "mesh-gateway", "server"}, td \in TdsMore}
   \cup {Sh("signing", td, "own", "", "plain", "none") : td \in Tds}
   \cup {Sh("garbage", "own", "own", "web", e, "none") : e \in Encs}
 
@@ -72,7 +76,7 @@ InitIssue == [roots |-> {[id |-> "r1", active |-> TRUE]}, ridx |-> 1, cfg |-> [v
 
 CmdsIssue(s) ==
   (IF s.n = 0 THEN (IF Universe = "small" THEN SignSmall ELSE SignFull) ELSE SignSmall)
-  \cup (IF s.nr < 2 THEN {[t |-> "rotate"]} ELSE {}) \cup {[t |-> "reconfig"]}
+  \cup (IF s.nr < 2 THEN {[t |-> "rotate", race |-> b] : b \in BOOLEAN} ELSE {}) \cup {[t |-> "reconfig", race |-> b] : b \in BOOLEAN}
 
 \* In the model an "any" decision is resolved the way the code resolves it today: issue.
 ApplyIssue(s, c) ==
@@ -83,13 +87,16 @@ ApplyIssue(s, c) ==
         ELSE LET sn == MaxOf(s.seen) + 1 IN
              [st |-> [s1 EXCEPT !.seen = @ \cup {sn}],
               out |-> [t |-> "issued", leaf |-> [id |-> [d.id EXCEPT !.td = "own"], isca |-> FALSE, serial |-> sn, issuer |-> ActiveId(s)]]]
+    [] c.t = "rotate" /\ c.race ->               \* RacingRootWrite wins: the manager's conditional write is refused,
+        LET m == MaxOf(s.seen) IN                \* UpdateConfiguration reports an error, nothing but the roots index moved
+        [st |-> [RacingRootWrite(s1, s1.idx) EXCEPT !.seen = @ \cup {m + 1, m + 2, m + 3}, !.nr = @ + 1], out |-> [t |-> "err"]]
     [] c.t = "rotate" ->                         \* CAManager.UpdateConfiguration with a new key: primaryUpdateRootCA
         LET new == RootIds[Cardinality(s.roots) + 1]  m == MaxOf(s.seen) IN
         [st |-> [s1 EXCEPT !.roots = {[r EXCEPT !.active = FALSE] : r \in s.roots} \cup {[id |-> new, active |-> TRUE]},
-                           !.ridx = s1.idx, !.cfg = [v |-> CfgNames[s.n + 2], mi |-> s1.idx], !.seen = @ \cup {m + 1, m + 2}, !.nr = @ + 1],
+                           !.ridx = s1.idx, !.cfg = [v |-> CfgNames[s.n + 2], mi |-> s1.idx], !.seen = @ \cup {m + 1, m + 2, m + 3}, !.nr = @ + 1],
          out |-> [t |-> "ok"]]
-    [] OTHER ->                                  \* reconfig: same root, CAOpSetConfig only
-        [st |-> [s1 EXCEPT !.cfg = [v |-> CfgNames[s.n + 2], mi |-> s1.idx]], out |-> [t |-> "ok"]]
+    [] OTHER ->                                  \* reconfig: same root, CAOpSetConfig only (no roots write to race with)
+        [st |-> [s1 EXCEPT !.cfg = [v |-> CfgNames[s.n + 2], mi |-> s1.idx], !.seen = @ \cup {MaxOf(s.seen) + 1}], out |-> [t |-> "ok"]]
 
 (* ------------------------------ profile "roots" ----------------------------------- *)
 InitRoots == [roots |-> {}, ridx |-> 0, cfg |-> [v |-> "", mi |-> 0], seen |-> {}, idx |-> 0, n |-> 0, nr |-> 0]
@@ -147,11 +154,15 @@ IssueStepOK ==
      LET lf == out'.leaf  req == Parse(c.csr.uris[1]) IN
        /\ Len(c.csr.uris) = 1 /\ c.csr.emails = 0
        /\ lf.id.kind \in Supported /\ lf.id.td = "own" /\ lf.id.dc = "own"
-       /\ (req.td # "foreign" \/ req.kind = "agent")           \* AgentCSRTrustDomainRewritten is the only rewrite
+       /\ (req.td \in OwnTds \/ req.kind = "agent")            \* AgentCSRTrustDomainRewritten is the only rewrite
        /\ SameIdentity(req, lf.id) /\ Scope(lf.id) \in c.authz
        /\ ~lf.isca /\ lf.serial \notin st.seen /\ lf.serial > MaxOf(st.seen)
        /\ lf.issuer \in {r.id : r \in ActiveRoots(st.roots)}
 PropIssue == [][IssueStepOK]_vars
+
+\* a reconfiguration that reports an error leaves root set and configuration alone (RacingRootWrite)
+ReconfStepOK == LET c == hist'[Len(hist')] IN (c.t \in {"rotate", "reconfig"} /\ out'.t = "err") => SameRootsAndConfig(st, st')
+PropReconf == [][ReconfStepOK]_vars
 
 SerialStepOK == out'.t = "serial" => out'.serial \notin st.seen
 PropSerial == [][SerialStepOK]_vars
